@@ -192,6 +192,9 @@ def run(ctx):
     st = explore(base, ["ans", "noise"], 0, sink, name="runs/b0")
     nz = [job(D, "lin", m, t, seeds[0], 62) for D in (1, 2) for m, t in (("spec", "sphere_corner"), ("decl", "sphere_in"))]
     st = explore(nz, ["noise"], 1, sink, stats=st, name="spec-corner/noise-b1", pos_ok=lambda k, p, r: p >= 30 and p % (3 if q else 1) == 0)
+    # single fit faults on anisotropic problems (a refit that succeeds on retry must still refresh the selection metric)
+    ff = [job(2, g, m, "sphere_in", seeds[0], 60 if m == "det" else 75) for g in ("mixed", "lin2") for m in ("det", "decl")]
+    st = explore(ff, ["fit"], 1, sink, stats=st, name="fit-fault/b1")
     sink.finish_cov(st)
     tot = sink.stat_tot
     rep.set("gp_local_fits_checked", tot.get("gp_local", 0))
